@@ -49,11 +49,12 @@ fn name_strategy() -> impl Strategy<Value = String> {
 }
 
 fn case_strategy() -> impl Strategy<Value = DCase> {
-    (3u32..=8).prop_flat_map(|n| {
+    // 3..8 variables mostly, 9 and 10 (the largest the table model supports) now and then
+    prop_oneof![8 => 3u32..=8, 2 => 9u32..=10].prop_flat_map(|n| {
         (
             Just(n),
-            proptest::collection::vec(any::<u16>(), 8),
-            proptest::collection::vec((proptest::collection::vec(any::<u64>(), 4), 0u8..4), 0..5),
+            proptest::collection::vec(any::<u16>(), 10),
+            proptest::collection::vec((proptest::collection::vec(any::<u64>(), if n > 8 { 16 } else { 4 }), 0u8..4), 0..5),
             prop_oneof![2 => Just(None), 5 => proptest::collection::vec(name_strategy(), n as usize).prop_map(Some)],
             any::<bool>(),
             (any::<bool>(), any::<bool>(), any::<bool>(), prop_oneof![3 => Just(String::new()), 3 => "[a-z ]{1,8}", 1 => "[a-z]\n[a-z]"]),
@@ -692,7 +693,7 @@ pub fn run(cfg: &Cfg) -> i32 {
         &total,
         Meta {
             level: "exploration",
-            rule: "round trips (proptest): 0..4 random functions over 3..8 variables under a random order as roots (incl. unused variables and shared nodes), BDD/BCDD/ZBDD, settings ASCII/binary x format 2.0/3.0 x strict on/off x diagram name (plain/with spaces/with control characters) x variable names (none, all, some; names with spaces, tabs, unicode, leading underscores, empty, names colliding with the sanitised form) x root names likewise. Checked: strict mode reports exactly when a name needs sanitising; every file the exporter completes is accepted by DumpHeader::load + import; in the same manager the imported handles == the originals; in a fresh manager whose order was set from support_var_order the imported tables equal the exported ones and the audit passes; header metadata (nvars, support ids, permids, support order, diagram name, variable names sanitised as documented, root names with _f{i}) equals what was exported. MTBDD<I64> / MTBDD<F64> round trips (1..3 value tables over 2..4 variables under random orders, format 2.0/3.0, named/unnamed variables; the exporter falls back to ASCII): same-manager handle equality, fresh-manager table equality + audit; TDD: export only (the importer rejects ternary nodes at compile time): the export must succeed and its header must load with the right metadata. Malformed input: every truncation point of 6 valid files per kind plus 6..9 valid files written for the OTHER kinds (other terminal names, complemented edges, binary mode for kinds that only write ASCII) and seeded mutations (header field replaced by 0 / 2^32-1 / 2^64-1 / reversed / duplicated / negative / shortened, bit flips, deletions, insertions, swapped lines, complement sign of a child reference toggled, child id replaced) imported in forked children with a 4 GiB address-space limit: a panic, abort, segfault or OOM is a violation, an accepted input must yield a well-formed diagram (structure + reference-count audit). Non-trivial = round trip with >= 2 roots, an unused variable and level != variable; truncated/mutated input reaching the importer. COVERAGE-GUIDED FUZZING: the libFuzzer targets of this property (harness/fuzz, entry points and decoders in fz.rs, the same oracle as above, built with AddressSanitizer, debug assertions and overflow checks) - quick tier: every committed seed and regression input is replayed through the in-process entry point; thorough tier: 3 libFuzzer campaigns per target with -runs=N -seed=f(VERIF_SEED) on fresh corpora initialised from the seeds (evaluations = executions, non-trivial = inputs kept for new coverage).",
+            rule: "round trips (proptest): 0..4 random functions over 3..10 variables under a random order as roots (incl. unused variables and shared nodes), BDD/BCDD/ZBDD, settings ASCII/binary x format 2.0/3.0 x strict on/off x diagram name (plain/with spaces/with control characters) x variable names (none, all, some; names with spaces, tabs, unicode, leading underscores, empty, names colliding with the sanitised form) x root names likewise. Checked: strict mode reports exactly when a name needs sanitising; every file the exporter completes is accepted by DumpHeader::load + import; in the same manager the imported handles == the originals; in a fresh manager whose order was set from support_var_order the imported tables equal the exported ones and the audit passes; header metadata (nvars, support ids, permids, support order, diagram name, variable names sanitised as documented, root names with _f{i}) equals what was exported. MTBDD<I64> / MTBDD<F64> round trips (1..3 value tables over 2..4 variables under random orders, format 2.0/3.0, named/unnamed variables; the exporter falls back to ASCII): same-manager handle equality, fresh-manager table equality + audit; TDD: export only (the importer rejects ternary nodes at compile time): the export must succeed and its header must load with the right metadata. Malformed input: every truncation point of 6 valid files per kind plus 6..9 valid files written for the OTHER kinds (other terminal names, complemented edges, binary mode for kinds that only write ASCII) and seeded mutations (header field replaced by 0 / 2^32-1 / 2^64-1 / reversed / duplicated / negative / shortened, bit flips, deletions, insertions, swapped lines, complement sign of a child reference toggled, child id replaced) imported in forked children with a 4 GiB address-space limit: a panic, abort, segfault or OOM is a violation, an accepted input must yield a well-formed diagram (structure + reference-count audit). Non-trivial = round trip with >= 2 roots, an unused variable and level != variable; truncated/mutated input reaching the importer. COVERAGE-GUIDED FUZZING: the libFuzzer targets of this property (harness/fuzz, entry points and decoders in fz.rs, the same oracle as above, built with AddressSanitizer, debug assertions and overflow checks) - quick tier: every committed seed and regression input is replayed through the in-process entry point; thorough tier: 3 libFuzzer campaigns per target with -runs=N -seed=f(VERIF_SEED) on fresh corpora initialised from the seeds (evaluations = executions, non-trivial = inputs kept for new coverage).",
             assumptions: vec!["for a mutated file there is no reference for what it should mean: the claim checked is 'rejected, or a well-formed diagram'".into(), "format 2.0 files carry names for support variables only; names of unused variables are checked for 3.0".into()],
             extra: json!({}),
         },
